@@ -19,8 +19,11 @@ pub fn ok_write(r: &Rec) -> bool {
         _ => false,
     }
 }
-fn is_lookup(r: &Rec) -> bool {
-    matches!(r.op, Op::Get { .. } | Op::Mut { .. } | Op::GetHold { .. } | Op::GetYield { .. })
+pub fn is_lookup(r: &Rec) -> bool {
+    is_lookup_op(&r.op)
+}
+pub fn is_lookup_op(o: &Op) -> bool {
+    matches!(o, Op::Get { .. } | Op::Mut { .. } | Op::GetHold { .. } | Op::GetYield { .. })
 }
 pub fn any_err(t: &Trace) -> bool {
     t.recs.iter().any(|r| matches!(r.res, Res::Err(_)))
@@ -390,7 +393,7 @@ pub fn o_map(p: &Program, t: &Trace) -> Vec<Finding> {
                     bad("an insert below capacity with room in the buffer must be accepted", &mut out, "map-insert-refused");
                     continue;
                 }
-                let deadline = if ttl_ms == 0 { None } else { Some(now + ttl_ms as u128 * 1_000_000) };
+                let deadline = if ttl_ms == 0 { None } else { Some(now + ttl_len_ns(ttl_ms)) };
                 let cost = expected_charge(p, c, &v);
                 let st = m.keys.entry(k).or_insert(KState::Absent);
                 match st.clone() {
@@ -617,7 +620,7 @@ pub fn o_reclaim(p: &Program, t: &Trace) -> Vec<Finding> {
         if t.validator_calls.iter().any(|(_, cv, ok)| *cv == v && !*ok) {
             continue;
         }
-        let deadline = w.call_ns + ttl_ms as u128 * 1_000_000;
+        let deadline = w.call_ns + ttl_len_ns(ttl_ms);
         // first later operation that removes / overwrites the entry or wipes the cache
         let superseded_at = recs[i + 1..]
             .iter()
@@ -730,14 +733,17 @@ pub fn o_ledger(p: &Program, t: &Trace) -> Vec<Finding> {
         Some(s) => s,
         None => return out,
     };
-    // values overwritten in place by get_mut are the user's own drop
-    let mut_keys: HashSet<u64> = t.recs.iter().filter(|r| matches!(r.op, Op::Mut { .. })).filter_map(|r| r.op.key()).collect();
+    // a value overwritten in place through a get_mut guard is the user's own drop (the guard was
+    // obtained on exactly that value); the value written through the guard is accounted for like
+    // any other
+    let overwritten: HashSet<Val> = t.recs.iter().filter(|r| matches!(r.op, Op::Mut { .. })).filter_map(|r| if let Res::Val(Some((x, _))) = &r.res { Some(*x) } else { None }).collect();
     for w in &t.recs {
         let v = match (w.op, w.wrote) {
             (Op::Ins { .. }, Some(v)) | (Op::Pres { .. }, Some(v)) if w.res == Res::Bool(true) => v,
+            (Op::Mut { .. }, Some(v)) if matches!(w.res, Res::Val(Some(_))) => v,
             _ => continue,
         };
-        if mut_keys.contains(&v.key) {
+        if overwritten.contains(&v) {
             continue;
         }
         let evs: Vec<&CbEvent> = t.ledger.iter().filter(|e| e.val == Some(v)).collect();
@@ -973,6 +979,15 @@ pub fn o_barrier(p: &Program, t: &Trace) -> Vec<Finding> {
     // Some(values): the key holds one of the values inserted since it was last absent (a second
     // insert of a key whose first insert is still buffered is refused by the policy: either may stay)
     let mut model: BTreeMap<u64, Option<Vec<Val>>> = BTreeMap::new();
+    // deadline of every value written with a TTL: once a candidate's TTL has run out, "nothing" is
+    // a correct answer for its key
+    let mut deadline: HashMap<Val, u128> = HashMap::new();
+    // keys with a write of this thread that no barrier / quiescent point has flushed yet: the next
+    // insert of such a key may be refused by the policy (see above).  A key all of whose writes
+    // have been applied takes an accepted insert for good - in place while the entry is there
+    // (dead or alive), as a new item with room in the policy once the sweep has collected it.
+    let mut unflushed: HashSet<u64> = HashSet::new();
+    let ample = p.cfg.validator == ValidatorMode::Always;
     // keys whose remove() has not been flushed by a barrier yet / keys written in that state: the
     // queued deletion is applied to whatever is resident when the processor reaches it, so a
     // write issued after the remove may be taken out by it (the buffered-delete design, §11.4)
@@ -989,16 +1004,22 @@ pub fn o_barrier(p: &Program, t: &Trace) -> Vec<Finding> {
         }
         if matches!(r.op, Op::Settle) || (r.op == Op::Wait && r.res == Res::Unit) {
             pending_rem.clear();
+            unflushed.clear();
         }
         match r.op {
-            Op::Ins { k, .. } => {
+            Op::Ins { k, ttl_ms, .. } => {
                 barrier_ok = false;
                 if r.res == Res::Bool(true) {
+                    if ttl_ms != 0 {
+                        deadline.insert(r.wrote.unwrap(), r.call_ns + ttl_len_ns(ttl_ms));
+                    }
+                    let flushed = ample && !unflushed.contains(&k) && !maybe_gone.contains(&k);
                     match model.entry(k).or_insert(None) {
-                        Some(vs) => vs.push(r.wrote.unwrap()),
+                        Some(vs) if !flushed => vs.push(r.wrote.unwrap()),
                         e => *e = Some(vec![r.wrote.unwrap()]),
                     }
                 }
+                unflushed.insert(k);
             }
             Op::Pres { k, .. } => {
                 barrier_ok = false;
@@ -1008,6 +1029,7 @@ pub fn o_barrier(p: &Program, t: &Trace) -> Vec<Finding> {
                         e => *e = Some(vec![r.wrote.unwrap()]),
                     }
                 }
+                unflushed.insert(k);
             }
             Op::Rem { k } => {
                 barrier_ok = false;
@@ -1030,6 +1052,7 @@ pub fn o_barrier(p: &Program, t: &Trace) -> Vec<Finding> {
                     match (exp, &r.res) {
                         (Some(vs), Res::Val(Some((x, _)))) if vs.contains(x) => {}
                         (Some(_), Res::Val(None)) if foreign_clear || maybe_gone.contains(&k) => {}
+                        (Some(vs), Res::Val(None)) if vs.iter().any(|v| deadline.get(v).map(|d| *d <= r.call_ns).unwrap_or(false)) => {}
                         (None, Res::Val(None)) => {}
                         (Some(vs), other) => out.push(f("barrier-insert-not-applied", format!("wait() returned Ok but {} returned {:?}; this thread's insert of {:?} should have been applied", r.op.short(), other, vs))),
                         (None, other) => out.push(f("barrier-remove-not-applied", format!("wait() returned Ok but {} returned {:?}; this thread removed the key before", r.op.short(), other))),
@@ -1049,7 +1072,8 @@ pub fn o_barrier(p: &Program, t: &Trace) -> Vec<Finding> {
                                 if resident && charged.is_none() {
                                     out.push(f("barrier-not-charged", format!("wait() returned Ok: {:?} is resident but not charged", v)));
                                 }
-                                if !resident && !foreign_clear && !maybe_gone.contains(k) {
+                                let lapsed = v.iter().any(|x| deadline.get(x).map(|d| *d <= s.now_ns).unwrap_or(false));
+                                if !resident && !foreign_clear && !maybe_gone.contains(k) && !lapsed {
                                     out.push(f("barrier-insert-not-applied", format!("wait() returned Ok but {:?} is not resident", v)));
                                 }
                             }
@@ -1155,10 +1179,16 @@ pub fn o_collide(p: &Program, t: &Trace) -> Vec<Finding> {
             Some(Slot::Owned(c2, v, _)) => Some((*c2, *v)),
             _ => None,
         };
+        // an operation that carries the conflict hash 0 skips the conflict check (documented): what
+        // it does to a slot owned by another key is not modelled
+        if cf == 0 && matches!(owner, Some((c2, _)) if c2 != 0) {
+            slots.insert(idx, Slot::Undetermined);
+            continue;
+        }
         match r.op {
             Op::Ins { ttl_ms, .. } => {
                 if r.res == Res::Bool(true) {
-                    let deadline = if ttl_ms == 0 { None } else { Some(now + ttl_ms as u128 * 1_000_000) };
+                    let deadline = if ttl_ms == 0 { None } else { Some(now + ttl_len_ns(ttl_ms)) };
                     match owner {
                         Some((c2, _)) if c2 != cf => {
                             // another key owns the slot: the newcomer is refused, the owner untouched
